@@ -164,13 +164,44 @@ def c06(tier):
             P("uw3", "uw", 3, weights="WeightSetH", walk=False, workers=16)]
 
 
+# What each property speaks of.  A check compares only these observers (and only the
+# internal-consistency topics that belong to its property), so that a defect of another
+# property's subject matter is not reported under the wrong property.
+SCOPE = {
+    "C01": dict(obs=["n", "en", "nbr", "has", "outdeg", "indeg", "mat"], state=["n", "adj", "en"], topics=["degree", "range"]),
+    "C02": dict(obs=["n", "en", "nbr", "has", "deg1", "deg2", "mat", "mat1"], state=["n", "adj", "en"], topics=["degree", "range", "nbr"]),
+    "C03": dict(obs=["n", "has", "lab", "labd", "hasl"], state=["n", "lab"], topics=["label"]),
+    "C04": dict(obs=["n", "en", "tot", "nbr", "has", "mult", "outdeg", "indeg", "deg1", "deg2", "mat", "mat1"],
+                state=["n", "adj", "en", "tot", "lab"], topics=["degree", "range", "mult"]),
+    "C05": dict(obs=["n", "en", "tot", "nbr", "has", "lab", "labd", "wmat", "outdeg", "indeg", "deg1", "deg2", "mat", "mat1"],
+                state=None, topics=["degree", "range", "weight", "total", "label"]),
+    "C16": dict(obs=["n", "en", "tot", "nbr", "has", "edges", "lab", "labd", "mult", "wmat", "outdeg", "indeg", "deg1", "deg2",
+                     "mat", "mat1"], state=None, topics=["degree", "range", "iter", "mult", "weight", "total", "label"]),
+    "C08": dict(obs=["n"], state=["n"], topics=["iter", "range"]),
+    "C07": dict(obs=None, state=None, topics=[], check_valid=False),
+}
+
+
+def apply_scope(pid, scenarios):
+    sc = SCOPE.get(pid)
+    if not sc:
+        return scenarios
+    for s in scenarios:
+        if not hasattr(s, "scope_plan"):
+            continue
+        s.obs_fields, s.state_fields, s.topics = sc.get("obs"), sc.get("state"), sc.get("topics")
+        s.check_valid = sc.get("check_valid", True)
+    return scenarios
+
+
 TABLE = {"C06": c06, "C01": c01, "C02": c02, "C03": c03, "C04": c04, "C05": c05, "C16": c16, "C07": c07}
 
 
-def run_scenarios(pid, scenarios, seed, gh_exe, extra_builds=()):
+def run_scenarios(pid, scenarios, seed, gh_exe, extra_builds=(), scope=None):
     """-> (results, violations).  Scenarios run concurrently (TLC + walk are mostly
     single-pipeline; 16 cores)."""
     results, violations = [], []
+    apply_scope(scope or pid, scenarios)
 
     def one(scn):
         out = {"scenario": scn.name}
